@@ -438,121 +438,252 @@ def _positive(test, pol):
     return (test, pol)
 
 
+def analyse_prep(m, prep):
+    """Classification of the nodes by the preparation function.
+    -> dict(ret=[local names returned, in order], sinks={local: (stmt, guards, kind, stored expr)}, cvar=<count variable>,
+            count_expr=<expression computing the count>, all_nodes=bool, skips=bool)
+    Two spellings are understood: one loop over the nodes with guarded append/add/subscript-store, or a count table
+    built first and one filtering comprehension per class."""
+    mod = prep.module
+    rets = [n for n in prep.own_nodes() if isinstance(n, ast.Return) and n.value is not None]
+    if len(rets) != 1:
+        raise AnalysisError(f"{prep.qualname}: expected a single return")
+    rv = rets[0].value
+    elts = rv.args if isinstance(rv, ast.Call) and not rv.keywords else rv.elts if isinstance(rv, ast.Tuple) else None
+    if elts is None and isinstance(rv, ast.Call) and rv.keywords and not rv.args and all(k.arg for k in rv.keywords):
+        # NamedTuple(field=..., ...): positional order is the order of the class's fields
+        order = None
+        for o in m.origins_of(prep, rv.func):
+            if o[0] == "class":
+                order = [st.target.id for st in o[1].node.body if isinstance(st, ast.AnnAssign) and isinstance(st.target, ast.Name)]
+        kw = {k.arg: k.value for k in rv.keywords}
+        if order is None or set(order) != set(kw):
+            raise AnalysisError(f"{prep.qualname}: cannot order the keyword fields of the returned record")
+        elts = [kw[x] for x in order]
+    if elts is None:
+        raise AnalysisError(f"{prep.qualname}: return value is not a tuple")
+    ret, inline = [], {}
+    for i, a in enumerate(elts):
+        if isinstance(a, ast.Name):
+            ret.append(a.id)
+        elif isinstance(a, (ast.ListComp, ast.SetComp, ast.DictComp)):
+            ret.append(f"#{i}")
+            inline[f"#{i}"] = a
+        else:
+            raise AnalysisError(f"{prep.qualname}: return value is not a tuple of local names / comprehensions")
+    info = {"ret": ret, "sinks": {}, "cvar": None, "count_expr": None, "all_nodes": False, "skips": False}
+    gparam = prep.pos_params[0]
+
+    def universe(it):
+        return norm(it) in (gparam, f"{gparam}.nodes", f"{gparam}.nodes()")
+    # (1) loop spelling
+    for n in prep.own_nodes():
+        tgt = None
+        if isinstance(n, ast.Expr) and isinstance(n.value, ast.Call) and isinstance(n.value.func, ast.Attribute) \
+                and isinstance(n.value.func.value, ast.Name) and n.value.func.value.id in ret and n.value.func.attr in ("append", "add"):
+            tgt, kind, stored = n.value.func.value.id, n.value.func.attr, None
+        elif isinstance(n, ast.Assign) and isinstance(n.targets[0], ast.Subscript) and isinstance(n.targets[0].value, ast.Name) \
+                and n.targets[0].value.id in ret:
+            tgt, kind, stored = n.targets[0].value.id, "store", n.value
+        if tgt is None:
+            continue
+        if tgt in info["sinks"]:
+            raise AnalysisError(f"{prep.qualname}: container {tgt} is filled at more than one site")
+        fors = [p for p in prep.own_nodes() if isinstance(p, ast.For) and inside(mod, n, p)]
+        if len(fors) != 1:
+            raise AnalysisError(f"{prep.qualname}: container {tgt} is not filled in a single loop")
+        info["sinks"][tgt] = (n, path_condition(mod, n, fors[0]), kind, stored, fors[0])
+    if info["sinks"]:
+        loops = {id(v[4]) for v in info["sinks"].values()}
+        if len(loops) != 1:
+            raise AnalysisError(f"{prep.qualname}: the classes are filled in different loops")
+        loop = next(iter(info["sinks"].values()))[4]
+        info["all_nodes"] = universe(loop.iter)
+        info["skips"] = any(isinstance(x, (ast.Continue, ast.Break)) for x in ast.walk(loop))
+        stores = [v for v in info["sinks"].values() if v[2] == "store"]
+        if len(stores) != 1 or not isinstance(stores[0][3], ast.Name):
+            raise AnalysisError(f"{prep.qualname}: the count table is not filled by exactly one subscript store of a local count")
+        info["cvar"] = stores[0][3].id
+        cbs = [b for b in prep.bindings.get(info["cvar"], []) if b[0] == "assign"]
+        if len(cbs) != 1:
+            raise AnalysisError(f"{prep.qualname}: count variable {info['cvar']} must be assigned exactly once")
+        info["count_expr"] = cbs[0][1]
+        info["sinks"] = {k: (v[0], v[1], v[2], v[3]) for k, v in info["sinks"].items()}
+        return info
+    # (2) comprehension spelling: counts = {n: COUNT(n) for n in G}; X = [n for n, c in counts.items() if GUARD(c)] ...
+    table = None
+    for nm, bs in prep.bindings.items():
+        for b in bs:
+            if b[0] == "assign" and isinstance(b[1], ast.DictComp) and len(b[1].generators) == 1 and universe(b[1].generators[0].iter) \
+                    and not b[1].generators[0].ifs and norm(b[1].key) == norm(b[1].generators[0].target):
+                table = (nm, b[1])
+    if table is None:
+        raise AnalysisError(f"{prep.qualname}: cannot identify how the nodes are classified by predecessor count")
+    tname, tcomp = table
+    if len([b for b in prep.bindings.get(tname, [])]) != 1:
+        raise AnalysisError(f"{prep.qualname}: count table {tname} is rebound")
+    info["all_nodes"] = True
+    info["count_expr"] = tcomp.value
+    info["cvar"] = "<count>"
+    for nm in ret:
+        if nm in inline:
+            bs = [("assign", inline[nm], ())]
+        else:
+            bs = [b for b in prep.bindings.get(nm, []) if b[0] == "assign"]
+            if len(bs) != 1 or len(prep.bindings.get(nm, [])) != 1:
+                raise AnalysisError(f"{prep.qualname}: container {nm} is not built by one comprehension")
+        comp = bs[0][1]
+        if not isinstance(comp, (ast.ListComp, ast.SetComp, ast.DictComp)) or len(comp.generators) != 1:
+            raise AnalysisError(f"{prep.qualname}: container {nm} is not built by one comprehension")
+        gen = comp.generators[0]
+        if not (norm(gen.iter) == f"{tname}.items()" and isinstance(gen.target, ast.Tuple) and len(gen.target.elts) == 2
+                and all(isinstance(x, ast.Name) for x in gen.target.elts)):
+            raise AnalysisError(f"{prep.qualname}: container {nm} does not range over the count table's items")
+        nv, cv = gen.target.elts[0].id, gen.target.elts[1].id
+        if isinstance(comp, ast.DictComp):
+            okshape = is_name(comp.key, nv) and is_name(comp.value, cv)
+            kind = "store"
+        else:
+            okshape = is_name(comp.elt, nv)
+            kind = "append" if isinstance(comp, ast.ListComp) else "add"
+        if not okshape:
+            raise AnalysisError(f"{prep.qualname}: container {nm} does not collect the nodes themselves")
+        # rename the count variable of this comprehension to the common name used by the guard evaluator
+        guards = [(_rename(t, cv, "<count>"), pol) for t, pol in (_positive(c_, True) for c_ in gen.ifs)]
+        info["sinks"][nm] = (bs[0][1], guards, kind, ast.Name(id="<count>", ctx=ast.Load()))
+    return info
+
+
+def _rename(test, old, new):
+    import copy
+    t = copy.deepcopy(test)
+    for n in ast.walk(t):
+        if isinstance(n, ast.Name) and n.id == old:
+            n.id = new
+    return t
+
+
+def prep_classes(m, prep):
+    """-> (info, {local name: 'initial' | 'single' | 'count'}, {local name: [counts 0..5 for which it is filled]})"""
+    info = analyse_prep(m, prep)
+    tables, roles = {}, {}
+    for nm, (st, conds, kind, stored) in info["sinks"].items():
+        tb = []
+        for c in range(0, 6):
+            v = True
+            for t, pol in conds:
+                ev = _eval_guard(t, info["cvar"], c)
+                if ev is None:
+                    raise AnalysisError(f"{prep.qualname}: guard `{norm(t)}` is outside the guard language")
+                v = v and (ev if pol else not ev)
+            if v:
+                tb.append(c)
+        tables[nm] = tb
+        if tb == [0]:
+            roles[nm] = "initial"
+        elif tb == [1] and kind != "store":
+            roles[nm] = "single"
+        elif kind == "store":
+            roles[nm] = "count"
+        else:
+            roles[nm] = "?"
+    return info, roles, tables
+
+
 def rule_counting_agreement(ctx, rid, r, rid_initial=None):
     m = ctx.model
     prep = r.prep
-    mod = prep.module
-    # the three sinks in PREP and the return tuple
-    rets = [n for n in prep.own_nodes() if isinstance(n, ast.Return) and n.value is not None]
-    if len(rets) != 1 or not isinstance(rets[0].value, ast.Call):
-        raise AnalysisError(f"{prep.qualname}: expected a single `return Tuple(...)`")
-    ret_args = [a.id if isinstance(a, ast.Name) else None for a in rets[0].value.args]
-    if len(ret_args) != 3 or None in ret_args:
-        raise AnalysisError(f"{prep.qualname}: return value is not a 3-tuple of local names")
-    sinks = {}  # name -> (stmt, kind, stored value)
-    for n in prep.own_nodes():
-        if isinstance(n, ast.Expr) and isinstance(n.value, ast.Call) and isinstance(n.value.func, ast.Attribute) \
-                and isinstance(n.value.func.value, ast.Name) and n.value.func.value.id in ret_args \
-                and n.value.func.attr in ("append", "add"):
-            sinks.setdefault(n.value.func.value.id, []).append((n, n.value.func.attr, None))
-        if isinstance(n, ast.Assign) and isinstance(n.targets[0], ast.Subscript) and isinstance(n.targets[0].value, ast.Name) \
-                and n.targets[0].value.id in ret_args:
-            sinks.setdefault(n.targets[0].value.id, []).append((n, "store", n.value))
-    count_local = ret_args[r.count_index]
-    if count_local not in sinks or len(sinks[count_local]) != 1 or sinks[count_local][0][1] != "store":
-        raise AnalysisError(f"{prep.qualname}: the count table is not filled by exactly one subscript store")
-    store_stmt, _, stored = sinks[count_local][0]
-    if not isinstance(stored, ast.Name):
-        raise AnalysisError(f"{prep.qualname}: stored count is not a local variable")
-    cvar = stored.id
-    cb = [b for b in prep.bindings.get(cvar, []) if b[0] == "assign"]
-    if len(cb) != 1:
-        raise AnalysisError(f"{prep.qualname}: count variable {cvar} must be assigned exactly once")
-    cls_prep = classify_pred_count(m, prep, cb[0][1])
+    info, roles, tables = prep_classes(m, prep)
+    ret = info["ret"]
+    count_local = ret[r.count_index]
+    cls_prep = classify_pred_count(m, prep, info["count_expr"])
     # successor loop in the callback
     loops = [n for n in r.nodecb.own_nodes() if isinstance(n, ast.For) and any(
         isinstance(x, ast.AugAssign) and x in r.decs for x in ast.walk(n))]
+    loops = [n for n in loops if not any(n2 is not n and inside(r.nodecb.module, n2, n) for n2 in loops)]
     if len(loops) != 1:
         raise AnalysisError(f"{r.nodecb.qualname}: expected one loop containing the decrement")
     succ_loop = loops[0]
     cls_cb = classify_neighbor_iter(m, r.nodecb, succ_loop.iter, "succ")
     if cls_prep is None:
-        raise AnalysisError(f"{prep.qualname}: predecessor-count expression `{norm(cb[0][1])}` is not in the networkx API table")
+        raise AnalysisError(f"{prep.qualname}: predecessor-count expression `{norm(info['count_expr'])}` is not in the networkx API table")
     if cls_cb is None:
         raise AnalysisError(f"{r.nodecb.qualname}: successor iteration `{norm(succ_loop.iter)}` is not in the networkx API table")
     ctx.trust("networkx MultiDiGraph: G.pred[n], G.succ[n], predecessors(n), successors(n) enumerate distinct "
               "neighbours; in_edges/out_edges/in_degree/out_degree enumerate per parallel edge")
     ok = cls_prep == cls_cb
     ctx.ob(rid, f"{prep.short}~{r.nodecb.short}/counting-class", ok, loc(r.nodecb, succ_loop),
-           f"count is {cls_prep} (`{norm(cb[0][1])}`), decrement loop is {cls_cb} (`{norm(succ_loop.iter)}`)" +
+           f"count is {cls_prep} (`{norm(info['count_expr'])}`), decrement loop is {cls_cb} (`{norm(succ_loop.iter)}`)" +
            ("" if ok else ": with parallel edges the counter is decremented a different number of times than it "
                           "was initialised with (early start or a node that never becomes ready)"),
            f"for {norm(succ_loop.target)} in {norm(succ_loop.iter)}")
-    # exact 3-way partition over the count
-    init_local = ret_args[r.initial_index]
-    single_local = ret_args[r.single_index]
-    spec = {init_local: (lambda c: c == 0), single_local: (lambda c: c == 1), count_local: (lambda c: c >= 2)}
-    for nm, pred in spec.items():
-        if nm not in sinks or len(sinks[nm]) != 1:
+    # exact partition over the count: {0} initial, optionally {1} enqueued directly by the single parent, the rest counted
+    has_single = r.single_index is not None
+    want = {"initial": [0], "single": [1], "count": [2, 3, 4, 5] if has_single else [1, 2, 3, 4, 5]}
+    label = {"initial": "== 0", "single": "== 1", "count": ">= 2" if has_single else ">= 1"}
+    by_index = {r.initial_index: "initial", r.count_index: "count"}
+    if has_single:
+        by_index[r.single_index] = "single"
+    for idx, role in by_index.items():
+        nm = ret[idx]
+        if nm not in info["sinks"]:
             raise AnalysisError(f"{prep.qualname}: container {nm} must be filled at exactly one site")
-        st = sinks[nm][0][0]
-        conds = path_condition(mod, st, prep.node)
-        # enclosing loop must range over all nodes of the graph
-        table = {}
-        for c in range(0, 5):
-            v = True
-            for t, pol in conds:
-                ev = _eval_guard(t, cvar, c)
-                if ev is None:
-                    raise AnalysisError(f"{prep.qualname}: guard `{norm(t)}` is outside the guard language")
-                v = v and (ev if pol else not ev)
-            table[c] = v
-        ok = all(table[c] == pred(c) for c in table)
-        target = rid_initial if (nm == init_local and rid_initial) else rid
+        st = info["sinks"][nm][0]
+        tb = tables[nm]
+        ok = tb == want[role]
+        target = rid_initial if (role == "initial" and rid_initial) else rid
         ctx.ob(target, f"{prep.short}/{nm}-guard", ok, loc(prep, st),
-               f"{nm} receives exactly the nodes with count " + {init_local: "== 0", single_local: "== 1", count_local: ">= 2"}[nm]
-               if ok else f"{nm} is filled for counts {[c for c, v in table.items() if v]} (expected "
-               + {init_local: "{0}", single_local: "{1}", count_local: "{2,3,...}"}[nm] + "): a node lands in two classes or in none",
-               head(st))
-    # the loop ranges over every node
-    fors = [n for n in prep.own_nodes() if isinstance(n, ast.For) and inside(mod, store_stmt, n)]
-    ok = len(fors) == 1 and norm(fors[0].iter) in (prep.pos_params[0], f"{prep.pos_params[0]}.nodes", f"{prep.pos_params[0]}.nodes()")
-    ctx.ob(rid, f"{prep.short}/all-nodes", ok, loc(prep), "classification loop ranges over all nodes of the graph" if ok
+               f"{nm} receives exactly the nodes with count {label[role]}" if ok else
+               f"{nm} is filled for counts {tb} (expected {{{', '.join(map(str, want[role][:2]))}{',...' if role == 'count' else ''}}}): "
+               f"a node lands in two classes or in none", head(st))
+    extra = [nm for nm in info["sinks"] if nm not in [ret[i] for i in by_index]]
+    ctx.ob(rid, f"{prep.short}/no-other-class", not extra, loc(prep), "every node falls in one of the classes the engine uses" if not extra else
+           f"nodes are also sorted into {extra}, which the engine does not consume")
+    # the classification ranges over every node
+    ctx.ob(rid, f"{prep.short}/all-nodes", info["all_nodes"], loc(prep), "classification loop ranges over all nodes of the graph" if info["all_nodes"]
            else "classification loop does not range over all nodes")
-    has_filter = any(isinstance(n, (ast.Continue, ast.Break)) for n in prep.own_nodes())
-    ctx.ob(rid, f"{prep.short}/no-skip", not has_filter, loc(prep), "no continue/break in the classification loop"
-           if not has_filter else "continue/break in the classification loop can leave a node unclassified")
-    # membership test in the callback uses the single-parent set; others go to the counter
-    single_name = r.prep_names.get(r.single_index)
-    member = f"{norm(succ_loop.target)} in {single_name}"
-    direct_puts = [c for c in put_sites(m, r.nodecb, r) if inside(r.nodecb.module, c, succ_loop) and not any(inside(r.nodecb.module, c, w) for w, _ in lock_withs(m, r.nodecb))]
-    ok = len(direct_puts) == 1 and any(norm(t) == member and pol for t, pol in path_condition(r.nodecb.module, stmt_of(r.nodecb.module, direct_puts[0]), succ_loop)) \
-        and all(any(norm(t) == member and not pol for t, pol in path_condition(r.nodecb.module, d, succ_loop)) for d in r.decs)
-    ctx.ob(rid, f"{r.nodecb.short}/single-parent-dispatch", ok, loc(r.nodecb, succ_loop),
-           "successors in the single-parent set are enqueued directly, all others go through the counter" if ok else
-           "successor dispatch is not `if successor in <single-parent set> ... else <counter>`", head(succ_loop))
+    ctx.ob(rid, f"{prep.short}/no-skip", not info["skips"], loc(prep), "no continue/break in the classification loop"
+           if not info["skips"] else "continue/break in the classification loop can leave a node unclassified")
+    # dispatch in the callback
+    mod_cb = r.nodecb.module
+    lockws = lock_withs(m, r.nodecb)
+    direct_puts = [c for c in put_sites(m, r.nodecb, r) if inside(mod_cb, c, succ_loop) and not any(inside(mod_cb, c, w) for w, _ in lockws)]
+    if has_single:
+        single_name = r.prep_names.get(r.single_index)
+        member = f"{norm(succ_loop.target)} in {single_name}"
+        ok = len(direct_puts) == 1 and any(norm(t) == member and pol for t, pol in path_condition(mod_cb, stmt_of(mod_cb, direct_puts[0]), succ_loop)) \
+            and all(any(norm(t) == member and not pol for t, pol in path_condition(mod_cb, d, succ_loop)) for d in r.decs)
+        ctx.ob(rid, f"{r.nodecb.short}/single-parent-dispatch", ok, loc(r.nodecb, succ_loop),
+               "successors in the single-parent set are enqueued directly, all others go through the counter" if ok else
+               "successor dispatch is not `if successor in <single-parent set> ... else <counter>`", head(succ_loop))
+    else:
+        ok = not direct_puts and all(not path_condition(mod_cb, d, succ_loop) for d in r.decs)
+        ctx.ob(rid, f"{r.nodecb.short}/single-parent-dispatch", ok, loc(r.nodecb, succ_loop),
+               "every successor goes through the counter (no single-parent class)" if ok else
+               "a successor is enqueued without going through its counter although there is no single-parent class", head(succ_loop))
 
 
 def prep_indices(m, r):
-    """Which element of PREP's result is the initial list / single-parent set / count table (by how they are filled)."""
+    """Which element of PREP's result is the initial list / single-parent set (optional) / count table."""
     prep = r.prep
-    rets = [n for n in prep.own_nodes() if isinstance(n, ast.Return) and n.value is not None]
-    if len(rets) != 1 or not isinstance(rets[0].value, ast.Call):
-        raise AnalysisError(f"{prep.qualname}: expected a single `return Tuple(...)`")
-    args = [a.id if isinstance(a, ast.Name) else None for a in rets[0].value.args]
-    kinds = {}
-    for n in prep.own_nodes():
-        if isinstance(n, ast.Call) and isinstance(n.func, ast.Attribute) and isinstance(n.func.value, ast.Name) \
-                and n.func.value.id in args:
-            kinds.setdefault(n.func.value.id, n.func.attr)
+    info, roles, tables = prep_classes(m, prep)
     r.initial_index = r.single_index = None
-    for i, a in enumerate(args):
-        if kinds.get(a) == "append":
+    for i, a in enumerate(info["ret"]):
+        if roles.get(a) == "initial":
             r.initial_index = i
-        elif kinds.get(a) == "add":
+        elif roles.get(a) == "single":
             r.single_index = i
-    if r.initial_index is None or r.single_index is None:
-        raise AnalysisError(f"{prep.qualname}: cannot identify the initial list (append) and single-parent set (add)")
+    if r.initial_index is None:
+        # fall back on how the container is filled, so that a wrong guard is reported as a violation by the rule
+        for i, a in enumerate(info["ret"]):
+            if a in info["sinks"] and info["sinks"][a][2] == "append" and i != r.count_index:
+                r.initial_index = i
+    if r.single_index is None:
+        for i, a in enumerate(info["ret"]):
+            if a in info["sinks"] and info["sinks"][a][2] == "add" and i not in (r.count_index, r.initial_index):
+                r.single_index = i
+    if r.initial_index is None:
+        raise AnalysisError(f"{prep.qualname}: cannot identify the list of initially ready nodes")
     r.prep_names_index = lambda what: {"initial": r.initial_index, "single": r.single_index, "count": r.count_index}[what]
 
 
